@@ -20,6 +20,14 @@
 (* skipping, when the damaged record is isolated and its size fields are   *)
 (* intact - every record after it; every output record is addressable      *)
 (* (its offset field is its position in the output).                       *)
+(*                                                                         *)
+(* The other offline tools of C16 are cases of the same enumeration        *)
+(* (kinds starting with "i" damage the index file of the intact blob,      *)
+(* kind "migrate" runs the migration tool):                                *)
+(*   validate_index accepts exactly the index files the storage produced   *)
+(*   for the blob next to them; read_index reports exactly the headers of  *)
+(*   the blob or fails; migrate_blob preserves every record (0 -> 1: under *)
+(*   the byte-reversed key) or refuses the version pair.                   *)
 (***************************************************************************)
 EXTENDS Naturals, Integers, Sequences, FiniteSets, TLC
 
@@ -37,7 +45,23 @@ VARIABLES n,    \* number of records
 \* flip : rec in 1..n, region in Regions; or rec = 0, region in BlobHdr
 \* trunc: rec in 1..n, region in Regions (cut strictly inside that region, or - for
 \*        "boundary" - exactly before record rec); rec = 0: inside the blob header
+\* index file = header (magic | count | record header size | meta size | hash length | hash |
+\* version+written | key size | blob size) | filters | tree meta | leaves and nodes
+IdxHdr     == {"imagic", "icount", "irhsize", "imetasize", "ihashlen", "ihash", "iversion", "ikeysize", "iblobsize"}
+IdxRegions == IdxHdr \cup {"ifilters", "itreemeta", "ibody"}
+\* iflip / itrunc: inside a region; iextend: bytes appended; istale: the blob next to the index is
+\* longer ("longer") or shorter ("shorter") than the index says; inoblob: no blob next to the index
+IdxDamages ==
+  {[kind |-> "inone", rec |-> 0, region |-> ""], [kind |-> "inoblob", rec |-> 0, region |-> ""],
+   [kind |-> "iextend", rec |-> 0, region |-> ""]}
+  \cup {[kind |-> "iflip", rec |-> 0, region |-> r] : r \in IdxRegions}
+  \cup {[kind |-> "itrunc", rec |-> 0, region |-> r] : r \in IdxRegions}
+  \cup {[kind |-> "istale", rec |-> 0, region |-> r] : r \in {"longer", "shorter"}}
+\* migration: rec = 10 * source version + target version
+MigCases == {[kind |-> "migrate", rec |-> 10 * from + to, region |-> ""] : from \in {0, 1}, to \in {0, 1, 2}}
+
 Damages(nn) ==
+  IdxDamages \cup MigCases \cup
   {[kind |-> "none", rec |-> 0, region |-> ""]}
   \cup {[kind |-> "flip", rec |-> i, region |-> r] : i \in 1..nn, r \in Regions}
   \cup {[kind |-> "flip", rec |-> 0, region |-> r] : r \in BlobHdr}
@@ -95,8 +119,21 @@ Validate ==
   ELSE IF See(FirstBad) = "metaflip" THEN "either"
   ELSE "reject"
 
+\* ---- index tools and migration -----------------------------------------------------------------------
+IsIdxCase == dmg.kind \in {"inone", "inoblob", "iextend", "iflip", "itrunc", "istale"}
+\* the whole file is covered by the hash in its header; the header fields are checked one by one;
+\* the blob size in the header must be the size of the blob (when there is one)
+ValidateIndex == IF dmg.kind \in {"inone", "inoblob"} THEN "accept" ELSE "reject"
+\* read_index does not look at the blob: a stale index still reports exactly what it was built from
+ReadIndex == IF dmg.kind \in {"inone", "inoblob", "istale"} THEN "exact" ELSE "error"
+\* "same": every record under its key; "reversed": every record under the byte-reversed key;
+\* "error": the pair of versions is not supported and nothing is produced
+Migrate ==
+  LET from == dmg.rec \div 10  to == dmg.rec % 10 IN
+  IF from >= to THEN "same" ELSE IF from = 0 /\ to = 1 THEN "reversed" ELSE "error"
+
 -----------------------------------------------------------------------------
-Init == n \in 1..MaxN /\ dmg \in Damages(MaxN) /\ dmg.rec <= n
+Init == n \in 1..MaxN /\ dmg \in Damages(MaxN) /\ (dmg.kind = "migrate" \/ dmg.rec <= n)
 Next == UNCHANGED <<n, dmg>>
 Spec == Init /\ [][Next]_<<n, dmg>>
 
@@ -108,6 +145,14 @@ AfterIsolatedDamage ==
   (FirstBad <= n /\ See(FirstBad) \in {"hdrval", "recval"}) => \A S \in RecoverSkip : S = (1..n) \ {FirstBad}
 AcceptIffWellFormed == (Validate = "accept") <=> (~HeaderFails /\ ~(dmg.kind = "flip" /\ dmg.rec = 0) /\ \A i \in Present : See(i) = "ok")
 
+\* C16, index part: accepted = produced by the storage for this very blob
+IdxAcceptIffProduced == IsIdxCase => ((ValidateIndex = "accept") <=> dmg.kind \in {"inone", "inoblob"})
+IdxReadNeverWrong == IsIdxCase => ReadIndex \in {"exact", "error"}
+MigratePreserves == dmg.kind = "migrate" => (Migrate = "error" <=> (dmg.rec \div 10 < dmg.rec % 10 /\ dmg.rec # 1))
+
 ToolsJson == [n |-> n, dmg |-> dmg, validate |-> Validate, fails |-> HeaderFails,
-              plain |-> RecoverPlain, skip |-> RecoverSkip]
+              plain |-> RecoverPlain, skip |-> RecoverSkip,
+              ivalidate |-> IF IsIdxCase THEN ValidateIndex ELSE "",
+              iread |-> IF IsIdxCase THEN ReadIndex ELSE "",
+              migrate |-> IF dmg.kind = "migrate" THEN Migrate ELSE ""]
 =============================================================================
